@@ -71,6 +71,8 @@ type metricMetaDatabase struct {
 	databaseName string
 
 	flushing atomic.Bool
+	// flushFailed: the last flush failed, the stores keep what it had frozen
+	flushFailed atomic.Bool
 }
 
 // NewMetricMetaDatabase creates a metric meta store.
@@ -305,6 +307,26 @@ func (mm *metricMetaDatabase) Flush() error {
 	defer func() {
 		mm.flushing.Store(false)
 	}()
+	retry := mm.flushFailed.Load()
+	if err := mm.flushStores(); err != nil {
+		mm.flushFailed.Store(true)
+		return err
+	}
+	if retry {
+		// the last flush failed: its frozen stores were still there, PrepareFlush did not freeze again and
+		// the stores above have only written that old part. What has been created since is still mutable,
+		// but the caller goes on to persist index/data (and the log sequence) which refer to it:
+		// freeze and write it now.
+		mm.PrepareFlush()
+		if err := mm.flushStores(); err != nil {
+			return err
+		}
+		mm.flushFailed.Store(false)
+	}
+	return nil
+}
+
+func (mm *metricMetaDatabase) flushStores() error {
 	if err := mm.sequence.Sync(); err != nil {
 		return err
 	}
